@@ -37,7 +37,8 @@ CONSTANTS Par(_),        \* parent id of a block
           NoBlock,
           Order,         \* sequence of the steps between "idx" and the bft part, e.g. <<"blk", "cache", "pub">>
           CheckAccepts,  \* TRUE: the importer refuses blocks whose parent is not on the finalized chain (bft.Accepts)
-          SimCommits     \* FALSE: a call simulation discards its private state (TRUE = seeded fault, teeth)
+          SimCommits,    \* FALSE: a call simulation discards its private state (TRUE = seeded fault, teeth)
+          NextTwoLoads   \* FALSE: revision "next" derives header AND state from ONE load of best (TRUE = seeded fault, teeth)
 
 VARIABLES dState,   \* blocks whose state tries are completely durable
           idx,      \* durable index tries: block -> [base, at, id] = the trie of block `base` plus (at |-> id); nodes are
@@ -55,11 +56,13 @@ VARIABLES dState,   \* blocks whose state tries are completely durable
           obs,      \* reader -> block observed as best (NoBlock before the first observation)
           lastFin,  \* reader -> last observed finalized checkpoint
           fail,     \* reader -> a read for its observed block failed or returned another block's data
-          finBack   \* reader -> an observation of finalized went backwards
+          finBack,  \* reader -> an observation of finalized went backwards
+          nxt       \* reader -> [hdr, st]: revision "next" in flight / last answered: the block the mocked header is a
+                    \* child of, and the block whose state the request executes on (NoBlock = not yet taken)
 durable == <<dState, idx, dBlk, dBest, dQ, dFin, dLogs, dJunk>>
 memory  == <<cSum, mBest, mFin>>
 importer == <<cur, pc, asBest, finTo>>
-readers == <<obs, lastFin, fail, finBack>>
+readers == <<obs, lastFin, fail, finBack, nxt>>
 vars == <<durable, memory, importer, readers>>
 
 RECURSIVE AncAt(_, _)
@@ -73,6 +76,7 @@ InitWith(g) ==
   /\ cur = NoBlock /\ pc = "idle" /\ asBest = FALSE /\ finTo = NoBlock
   /\ obs = [r \in Readers |-> NoBlock] /\ lastFin = [r \in Readers |-> g]
   /\ fail = [r \in Readers |-> FALSE] /\ finBack = [r \in Readers |-> FALSE]
+  /\ nxt = [r \in Readers |-> [hdr |-> NoBlock, st |-> NoBlock]]
 
 ------------------------------------------------------------------------------------------------------------------
 (* importer *)
@@ -158,32 +162,43 @@ ReadOK(kind, b, n) == CASE kind = "hdr"   -> SummaryAvail(b)
                         [] kind = "anc"   -> AncestorOK(b, n)
                         [] kind = "state" -> StateAvail(b)
                         [] kind = "sim"   -> StateAvail(b)
+                        [] kind = "next"  -> StateAvail(b)
                         [] OTHER          -> FALSE
 
 ObserveBest(r) == /\ obs' = [obs EXCEPT ![r] = mBest]
-                  /\ UNCHANGED <<durable, memory, importer, lastFin, fail, finBack>>
+                  /\ UNCHANGED <<durable, memory, importer, lastFin, fail, finBack, nxt>>
 \* a read for the block the reader holds; GetOrLoad fills the summary cache
 Read(r, kind, n) ==
   /\ obs[r] # NoBlock /\ n \in 0..Num(obs[r])
   /\ (kind # "anc" => n = 0)
   /\ fail' = [fail EXCEPT ![r] = @ \/ ~ReadOK(kind, obs[r], n)]
   /\ cSum' = IF kind \in {"hdr", "body", "anc"} /\ obs[r] \in dBlk THEN cSum \cup {obs[r]} ELSE cSum
-  /\ UNCHANGED <<durable, mBest, mFin, importer, obs, lastFin, finBack>>
+  /\ UNCHANGED <<durable, mBest, mFin, importer, obs, lastFin, finBack, nxt>>
 \* call simulation (POST /accounts): executes on a private state over the observed root, writes stay in that overlay
 Simulate(r) ==
   /\ obs[r] # NoBlock
   /\ fail' = [fail EXCEPT ![r] = @ \/ ~ReadOK("sim", obs[r], 0)]
   /\ dJunk' = IF SimCommits THEN dJunk \cup {obs[r]} ELSE dJunk
-  /\ UNCHANGED <<dState, idx, dBlk, dBest, dQ, dFin, dLogs, memory, importer, obs, lastFin, finBack>>
+  /\ UNCHANGED <<dState, idx, dBlk, dBest, dQ, dFin, dLogs, memory, importer, obs, lastFin, finBack, nxt>>
 \* Engine.Finalized(): one atomic load; the revision "finalized" then reads that block and its state
 ObserveFinalized(r) ==
   /\ lastFin' = [lastFin EXCEPT ![r] = mFin]
   /\ finBack' = [finBack EXCEPT ![r] = @ \/ ~IsAnc(lastFin[r], mFin)]
   /\ fail' = [fail EXCEPT ![r] = @ \/ ~(SummaryAvail(mFin) /\ StateAvail(mFin))]
-  /\ UNCHANGED <<durable, memory, importer, obs>>
+  /\ UNCHANGED <<durable, memory, importer, obs, nxt>>
+\* restutil.GetSummaryAndState for the revision "next" (call simulation on the block to come): best is loaded ONCE; the
+\* mocked header (parent id, number, state root) is built from that capture (NextHeader) and, as a separate step - the
+\* importer may publish in between -, the state is created at the root of THE SAME capture (NextState).
+NextHeader(r) == /\ nxt' = [nxt EXCEPT ![r] = [hdr |-> mBest, st |-> NoBlock]]
+                 /\ UNCHANGED <<durable, memory, importer, obs, lastFin, fail, finBack>>
+NextState(r) == /\ nxt[r].hdr # NoBlock /\ nxt[r].st = NoBlock
+                /\ LET b == IF NextTwoLoads THEN mBest ELSE nxt[r].hdr IN
+                   /\ nxt' = [nxt EXCEPT ![r].st = b]
+                   /\ fail' = [fail EXCEPT ![r] = @ \/ ~StateAvail(b)]
+                /\ UNCHANGED <<durable, memory, importer, obs, lastFin, finBack>>
 
 Kinds == {"hdr", "body", "anc", "state"}
-ReaderStep == \E r \in Readers : \/ ObserveBest(r) \/ ObserveFinalized(r) \/ Simulate(r)
+ReaderStep == \E r \in Readers : \/ ObserveBest(r) \/ ObserveFinalized(r) \/ Simulate(r) \/ NextHeader(r) \/ NextState(r)
                                  \/ \E k \in Kinds : \E n \in 0..Num(obs[r]) : Read(r, k, n)
 
 ------------------------------------------------------------------------------------------------------------------
@@ -199,6 +214,9 @@ PublishedComplete == Complete(mBest) /\ SummaryAvail(mFin) /\ StateAvail(mFin)
 \* the durable pointer never runs ahead of the data either (ImportCrash.BestComplete) and memory never ahead of disk
 DurableBehindMemory == Complete(dBest) /\ IsAnc(mFin, dFin) /\ (mBest # dBest => cur = dBest)
 FinalizedMonotonePerReader == \A r \in Readers : ~finBack[r]
+\* the (header, state) pair handed to a call simulation at revision "next" is ONE snapshot: the state is the state of
+\* the block the mocked header is the child of
+NextIsOneSnapshot == \A r \in Readers : nxt[r].st # NoBlock => nxt[r].st = nxt[r].hdr
 \* no reader step changes anything durable (caches may be filled)
 QueriesAreReadOnly == [][ReaderStep => UNCHANGED durable]_vars
 NoQueryWrites == dJunk = {}
